@@ -151,15 +151,6 @@ Proof.
 Qed.
 
 (* on a canonical map the first and the last binding of a key coincide *)
-Lemma slookup_none_sorted : forall A k k' (r : list (str * A)),
-  Forall (klt (k', @None A)) (map (fun p => (fst p, @None A)) r) -> str_eqb k k' = true -> lookup_last k r = None.
-Proof.
-  intros A k k' r H E. apply str_eqb_eq in E. subst k'.
-  induction r as [|[k2 v2] r IH]; [reflexivity|]. cbn [map] in H. inversion H as [|x l Hx Hr]; subst.
-  cbn [lookup_last]. rewrite (IH Hr). unfold klt in Hx. cbn [fst] in Hx.
-  rewrite (str_ltb_neq _ _ Hx). reflexivity.
-Qed.
-
 Lemma lookup_last_sorted : forall A (l : list (str * A)) k, ssorted l -> lookup_last k l = slookup k l.
 Proof.
   intros A l k H. induction H as [|[k' v'] r Hr IH Hall]; [reflexivity|]. cbn [lookup_last slookup].
@@ -399,3 +390,14 @@ Proof. vm_compute. reflexivity. Qed.
 
 Example good_sat : good (JObj [(default_key, JNum 1 0); ([97%N], JArr [JStr [128512%N]; JNum 15 (-1000)]); ([97%N], JNull)]) = true.
 Proof. reflexivity. Qed.
+
+(* witnesses against the statement for ALL documents *)
+Lemma json_roundtrip_witnesses :
+  (json_roundtrip (JArr [JNum 1 1001]) = Some (JArr [JNull]) /\ ~ jequiv (JArr [JNull]) (JArr [JNum 1 1001]))
+  /\ (json_roundtrip (JObj [([107%N], JStr [55296%N; 120%N]); ([98%N], JNum 1 0)]) = Some (JObj [([98%N], JNum 1 0)])
+      /\ ~ jequiv (JObj [([98%N], JNum 1 0)]) (JObj [([107%N], JStr [55296%N; 120%N]); ([98%N], JNum 1 0)])).
+Proof.
+  split; split; try (vm_compute; reflexivity).
+  - intros H. inversion H as [| | | |l l' Hl|]; subst. inversion Hl as [|x y r r' Hxy Hr]; subst. inversion Hxy.
+  - intros H. inversion H as [| | | | |kv kv' Hk]; subst. specialize (Hk [107%N]). cbn in Hk. inversion Hk.
+Qed.
